@@ -28,13 +28,13 @@ runs_for() { # variant
   case "$PROP:$v" in
     C06:plain) [ $q = 1 ] && echo 3000 || echo 120000 ;;
     C06:tsan)  [ $q = 1 ] && echo 500  || echo 20000 ;;
-    C05:plain) [ $q = 1 ] && echo 1500 || echo 60000 ;;
+    C05:plain) [ $q = 1 ] && echo 2500 || echo 60000 ;;
     C05:asan)  [ $q = 1 ] && echo 150  || echo 6000 ;;
-    C09:plain) [ $q = 1 ] && echo 1500 || echo 60000 ;;
-    C03:plain) [ $q = 1 ] && echo 1200 || echo 40000 ;;
-    C04:plain) [ $q = 1 ] && echo 1000 || echo 40000 ;;
+    C09:plain) [ $q = 1 ] && echo 2500 || echo 60000 ;;
+    C03:plain) [ $q = 1 ] && echo 2000 || echo 40000 ;;
+    C04:plain) [ $q = 1 ] && echo 2000 || echo 40000 ;;
     C07:plain) [ $q = 1 ] && echo 3000 || echo 100000 ;;
-    C08:plain) [ $q = 1 ] && echo 2000 || echo 60000 ;;
+    C08:plain) [ $q = 1 ] && echo 4000 || echo 60000 ;;
     C10:asan)  [ $q = 1 ] && echo 1000 || echo 30000 ;;
     C14:plain) [ $q = 1 ] && echo 3000 || echo 100000 ;;
     C14:asan)  [ $q = 1 ] && echo 600  || echo 20000 ;;
@@ -60,7 +60,7 @@ done
 
 # C06: enumerated stop windows W0..W3 and W4(k), k = 1..200, x 4 go kinds x 3 positions (2448 cases), search held in the window
 if [ "$PROP" = "C06" ]; then
-  for v in plain $([ "$TIER" = "thorough" ] && echo tsan); do
+  for v in plain tsan; do
     ev="build/ev/${PROP}_${v}_sweep.json"; rm -f "$ev"
     "build/$v/vsim" --prop C06 --sweep --seed "$SEED" --runs 2448 --evidence "$ev"
     r=$?
